@@ -31,10 +31,18 @@ def parseObs (t : String) : Option IObs :=
     | _ => none
   | _ => none
 
+/-- what the server's handler found wrong with the request it received; the Host header and the request target are
+    also the business of C13 (what is written on the wire for a request) -/
+def alteredClass (flag : String) : String :=
+  let fields := (flag.drop 4).toString.splitOn ","
+  "C01/request-altered" ++
+    (if fields.contains "host" then ",C13/host-header-on-the-wire" else "") ++
+    (if fields.contains "path" || fields.contains "query" then ",C13/request-target-on-the-wire" else "")
+
 /-- the property on one request's observation -/
 def verdictOne (r : Req) (o : IObs) : Option String :=
   if o.outcome.startsWith "mismatch:" then some "C01/response-mismatch"
-  else if o.flag.startsWith "bad:" then some "C01/request-altered"
+  else if o.flag.startsWith "bad:" then some (alteredClass o.flag)
   else if o.calls > 1 then some "C01/request-duplicated"
   else if o.outcome == "ok" && o.calls == 0 then some "C01/response-without-request"
   else if o.outcome == "timeout" then some "C01/request-never-completed"
@@ -50,7 +58,7 @@ def verdictOne (r : Req) (o : IObs) : Option String :=
     server never started to handle may be refused. -/
 def verdictSignal (sig : Nat) (o : IObs) : Option String :=
   if o.outcome.startsWith "mismatch:" then some "C01/response-mismatch"
-  else if o.flag.startsWith "bad:" then some "C01/request-altered"
+  else if o.flag.startsWith "bad:" then some (alteredClass o.flag)
   else if o.calls > 1 then some "C01/request-duplicated"
   else match o.started with
     | some st =>
@@ -106,7 +114,11 @@ def driverLine (inp obs : List String) : Bool × Bool × String × String :=
       let agree := pairs.all fun ((r, ok), o) =>
         o.id == r.id && ok && (o.outcome == "ok" || (r.mayCancel && o.outcome == "cancelled"))
       let cls := pairs.foldl (fun acc ((r, _), o) => acc <|> verdictOne r o) none
-      (agree, cls.isNone, cls.getD "-", shown)
+      -- every reason any request of the scenario gives (the first one leads)
+      let all := (pairs.filterMap fun ((r, _), o) => verdictOne r o) ++
+        (iobs.filterMap fun o => if o.flag.startsWith "bad:" then some (alteredClass o.flag) else none)
+      let all := (all.flatMap (·.splitOn ",")).eraseDups
+      (agree, cls.isNone, if cls.isNone then "-" else ",".intercalate all, shown)
   | _ => (false, false, "bad-line", "")
 
 end Hd.E2E
